@@ -16,7 +16,11 @@ META = {
             "asserts with reasons, logs) written independently of "
             "both code generators, with machine-checked laws (determinism, exact-or-revert arithmetic, store lens laws, "
             "termination with a static fuel bound) and a verified compiler for the legacy int/bool expression fragment "
-            "(expr_compile_correct, tied by syntactic equality with the real IR). The real compiler is tied to it per generated program: every "
+            "(expr_compile_correct, tied by syntactic equality with the real IR), extended for BOTH front ends to a larger expression "
+            "fragment (expr_x_compile_correct / vexpr_x_compile_correct: decimals, flags with in / not in, shifts, ~, signed bitwise "
+            "operations, state-variable leaves; real legacy IR and real Venom blocks compared syntactically with the verified "
+            "compilers' output on a fixed operator table + random expressions every run, a subset executed on pyrevm against the "
+            "Coq meaning). The real compiler is tied to it per generated program: every "
             "configuration's bytecode is executed on pyrevm and status/return data/logs/final storage are compared with "
             "the semantics' prediction computed by vm_compute. Partial: the compiler is not proved correct; coverage of "
             "the compiler is per generated program.",
